@@ -387,10 +387,24 @@ class LayoutTyper(Structured):
         if len(e.generators) != 1 or e.generators[0].ifs:
             return UNK
         g = e.generators[0]
-        if not isinstance(g.target, ast.Name) or not isinstance(e.elt, ast.IfExp):
+        elt = e.elt
+        SL = ('slice(None)', 'slice(None, None)', 'slice(None, None, None)')
+        if isinstance(g.target, ast.Name):
+            # ev.get(a, slice(None))  is  ev[a] if a in ev else slice(None);   `ev.get(a) or slice(None)` is not: the value 0 is falsy
+            if isinstance(elt, ast.Call) and isinstance(elt.func, ast.Attribute) and elt.func.attr == 'get' and len(elt.args) == 2 and not elt.keywords \
+                    and U(elt.args[0]) == g.target.id and U(elt.args[1]) in SL:
+                ev_ = elt.func.value
+                elt = ast.IfExp(test=ast.Compare(left=ast.Name(id=g.target.id, ctx=ast.Load()), ops=[ast.In()], comparators=[ev_]),
+                                body=ast.Subscript(value=ev_, slice=ast.Name(id=g.target.id, ctx=ast.Load()), ctx=ast.Load()), orelse=elt.args[1])
+            elif isinstance(elt, ast.BoolOp) and isinstance(elt.op, ast.Or) and len(elt.values) == 2 and U(elt.values[1]) in SL and isinstance(elt.values[0], ast.Call) \
+                    and isinstance(elt.values[0].func, ast.Attribute) and elt.values[0].func.attr == 'get' and U(elt.values[0].args[0]) == g.target.id:
+                self.report('index-by-name', e, False, '`%s`: an evidence value of 0 - the FIRST element of an attribute, the only one of a size-1 attribute - is falsy and '
+                            'is replaced by the whole axis, while the result domain still drops the attribute' % U(elt))
+                return UNK
+        if not isinstance(g.target, ast.Name) or not isinstance(elt, ast.IfExp):
             return UNK
         a = g.target.id
-        t, body, orelse = e.elt.test, e.elt.body, e.elt.orelse
+        t, body, orelse = elt.test, elt.body, elt.orelse
         neg = False
         if isinstance(t, ast.UnaryOp) and isinstance(t.op, ast.Not):
             t, neg = t.operand, True
